@@ -177,8 +177,9 @@ def build(case):
         else:
             d = case.get("dim", 2)
             extra = {"distance": DISTANCES[case["distance"]]} if case.get("distance") else {}
-            g = bg.Spatial(candidates=list(case["candidates"]), voter_dist=np.random.normal, voter_dist_kwargs={"loc": 0.0, "scale": 1.0, "size": d},
-                           candidate_dist=np.random.uniform, candidate_dist_kwargs={"low": -1.0, "high": 1.0, "size": d}, **extra)
+            off = float(case.get("offset", 0.0))  # positions far from the origin relative to their spread (map coordinates)
+            g = bg.Spatial(candidates=list(case["candidates"]), voter_dist=np.random.normal, voter_dist_kwargs={"loc": off, "scale": 1.0, "size": d},
+                           candidate_dist=np.random.uniform, candidate_dist_kwargs={"low": off - 1.0, "high": off + 1.0, "size": d}, **extra)
         return lambda: g.generate_profile(N)
     if gen == "ClusteredSpatial":
         if case.get("defaults"):
@@ -186,8 +187,9 @@ def build(case):
         else:
             d = case.get("dim", 2)
             extra = {"distance": DISTANCES[case["distance"]]} if case.get("distance") else {}
+            off = float(case.get("offset", 0.0))
             g = bg.ClusteredSpatial(candidates=list(case["candidates"]), voter_dist=np.random.normal, voter_dist_kwargs={"scale": 0.5, "size": d},
-                                    candidate_dist=np.random.uniform, candidate_dist_kwargs={"low": 0.0, "high": 1.0, "size": d}, **extra)
+                                    candidate_dist=np.random.uniform, candidate_dist_kwargs={"low": off, "high": off + 1.0, "size": d}, **extra)
         per = dict(case["per_candidate"])
         return lambda: g.generate_profile_with_dict(per)
     slates = {b: list(v) for b, v in case["slates"].items()}
